@@ -22,11 +22,13 @@ __all__ = ["Engine", "Sym", "SymBool", "Ratio", "HarnessError", "Inconclusive",
            "PathAbort", "ExactQ", "is_sym", "evalm", "SymCtx", "ConcreteCtx"]
 
 
-class HarnessError(Exception):
-    """The harness / engine met something it cannot model soundly."""
+class HarnessError(BaseException):
+    """The harness / engine met something it cannot model soundly.
+    (BaseException, like PathAbort: neither the code under test nor a harness's
+    `except Exception` -- which records what the *library* raises -- may swallow it.)"""
 
 
-class Inconclusive(Exception):
+class Inconclusive(BaseException):
     """Budget exhausted or solver answered unknown."""
 
 
@@ -462,6 +464,9 @@ class Ratio:
             raise ZeroDivisionError("division by zero")
         return Ratio(self.num * (Fr(1) / c), self.den)
 
+    def __floordiv__(self, o):
+        return math.floor(self / o)
+
     def __floor__(self):
         return _engine().floor_ratio(self)
 
@@ -705,6 +710,25 @@ class ExactQ:
 
     def __rtruediv__(self, o):
         return self._bin(o, lambda a, b: b / a)
+
+    def __floordiv__(self, o):
+        if isinstance(o, (Sym, Ratio)):
+            return NotImplemented
+        return self._bin(o, lambda a, b: a // b)
+
+    def __rfloordiv__(self, o):
+        return self._bin(o, lambda a, b: b // a)
+
+    def __mod__(self, o):
+        if isinstance(o, (Sym, Ratio)):
+            return NotImplemented
+        return self._bin(o, lambda a, b: a % b)
+
+    def __rmod__(self, o):
+        return self._bin(o, lambda a, b: b % a)
+
+    def __divmod__(self, o):
+        return self // o, self % o
 
     def __neg__(self):
         return ExactQ(-self.q)
@@ -962,7 +986,12 @@ class Engine:
         if la is None or lb is None:
             raise HarnessError("divmod with a non-number")
         if not (la[2] and lb[2]):
-            raise HarnessError("floor division of symbolic reals")
+            # real operands: python's  a // b == floor(a / b)  and  a % b == a - b*(a // b)
+            # (exact arithmetic; a float-exact counterexample must reproduce with floats)
+            if not lb[0] and lb[1] == 0:
+                raise ZeroDivisionError("float floor division by zero")
+            q = math.floor(a / b)
+            return q, a - q * b
         if not la[0] and not lb[0]:
             return divmod(la[1], lb[1])
         if not lb[0]:
